@@ -158,6 +158,7 @@ func allChecks() []*Check {
 				{Pkg: "client", Func: "VerifC17Step", Quick: map[string]int{"NL": 2}, Thorough: map[string]int{"NL": 4},
 					Asserts: []string{"asks-for-generated-nick", "config-me-non-nil", "me-non-nil", "me-is-servers-nick", "no-unprompted-nick-change", "unaffected-by-old-nick-holder"}},
 				{Pkg: "client", Func: "VerifC17Reconnect", Asserts: []string{"reconnect:me-non-nil", "reconnect:me-is-servers-nick", "reconnect:registers-with-current-nick", "reconnect:asks-for-generated-nick"}, Note: "two connections on one client: renamed by the server, reconnect, 433 on the current nick, welcome under the generated one"},
+				{Pkg: "client", Func: "VerifC17LongLine", Asserts: []string{"longline:delivered-as-one-message", "longline:me-is-servers-nick"}, Note: "a chat line longer than the read buffer whose tail reads like a NICK change of the client"},
 				{Pkg: "client", Func: "VerifC17NewNick", Asserts: []string{"same-length", "same-prefix", "last-byte-differs"}},
 			},
 			Bounds:      map[string]string{"quick": "one server event {433 before the welcome, 001 same/different nick with/without nick!user@host, own NICK (both parameter forms), 433 after the welcome, NICK of another user} from any state satisfying 'Me().Nick = server's nick'; nicks 1..2 symbolic bytes; tracking on/off; default generator and a custom one that is not a pure function (a different nick on every call: what is recorded as the client's nick must be what was sent); DefaultNewNick for all byte strings of length 1..3", "thorough": "nicks 1..4 bytes"},
@@ -266,6 +267,7 @@ func allChecks() []*Check {
 				{Pkg: "client", Func: "VerifC11Wire", Quick: map[string]int{"EXTRA": 5}, Thorough: map[string]int{"EXTRA": 10}},
 				{Pkg: "client", Func: "VerifC11Default", Quick: map[string]int{"K": 6, "OVER": 2}, Thorough: map[string]int{"K": 12, "OVER": 4}},
 				{Pkg: "client", Func: "VerifC11Long", Quick: map[string]int{"SL": 600, "K": 6, "OVER": 2}, Thorough: map[string]int{"SL": 600, "K": 9, "OVER": 4}, Note: "SplitLen 600: lines longer than 512 bytes, read back from the server end"},
+				{Pkg: "client", Func: "VerifC11Many", Quick: map[string]int{"PIECES": 40}, Thorough: map[string]int{"PIECES": 70}, Note: "more pieces than the output queue holds, to a peer that reads late; Timeout 0 / default"},
 				{Pkg: "client", Func: "VerifC11Long", Quick: map[string]int{"SL": 0, "TGT": 80, "K": 6, "OVER": 2}, Thorough: map[string]int{"SL": 0, "TGT": 120, "K": 9, "OVER": 4}, Note: "default limit with a long target"},
 			},
 			Bounds:      map[string]string{"quick": "SplitLen 13..14 with texts of 0..SplitLen+8 bytes (all byte values but CR/LF); any SplitLen < 13 on the comparison; wire framing for 6 methods at SplitLen 13, text <= 18; default path at text length 450; connected client with SplitLen 600 (lines beyond 512 bytes) and with the default limit and an 80-byte target, Privmsg/Notice/Ctcp/CtcpReply, text = filler + 6 symbolic bytes around the limit + 0..2 beyond, pieces read back from the server end", "thorough": "SplitLen 13..16, texts up to SplitLen+14; wire text <= 23; default path 450..452 bytes with SplitLen in {-5,0,1,12}; long configurations with 9 symbolic bytes, 0..4 beyond, 120-byte target"},
